@@ -392,17 +392,20 @@ class FunctionReference:
             if memento_fn is not None and memento_fn.fn is not None
             else self._module + ":" + self._function_name
         )
-        if version is not None:
-            qualified_name += "#" + version
+        # The cluster prefix is examined before the version is appended, because a version
+        # may itself contain "::"
         if cluster_name is not None and "::" not in qualified_name:
             qualified_name = cluster_name + "::" + qualified_name
-        self._qualified_name = qualified_name
-
-        self._qualified_name_without_cluster = (
-            self.qualified_name
-            if "::" not in self.qualified_name
-            else self.qualified_name[self.qualified_name.find("::") + 2 :]
+        qualified_name_without_cluster = (
+            qualified_name
+            if "::" not in qualified_name
+            else qualified_name[qualified_name.find("::") + 2 :]
         )
+        if version is not None:
+            qualified_name += "#" + version
+            qualified_name_without_cluster += "#" + version
+        self._qualified_name = qualified_name
+        self._qualified_name_without_cluster = qualified_name_without_cluster
 
         self.qualified_name_without_version = self.module + ":" + self.function_name
         if cluster_name is not None:
